@@ -24,7 +24,7 @@ ASSUMPTIONS = ["previous-versions-max values 0/negative are not generated (meani
 @st.composite
 def case_strategy(draw):
     clock = draw(st.sampled_from(["real", "real", "manual", "manual_back"]))
-    steps = draw(history_strategy(25, gc=False, clock_ticks={"real": "forward", "manual": "forward", "manual_back": "any"}[clock], open_txn=False))
+    steps = draw(history_strategy(25, gc=False, clock_ticks={"real": "forward", "manual": "forward", "manual_back": "any"}[clock], open_txn=True))
     return {"kind": "history", "clock": clock, "steps": steps}
 
 
